@@ -270,6 +270,15 @@ pub fn run(ctx: &mut Ctx) {
         let strangers: Vec<&Key> = idx[nsign..nsign + 2].iter().map(|&i| &pool[i]).collect();
         let mut e = base.clone();
         let mut hist: Vec<String> = Vec::new();
+        // every 6th case the envelope is signed while it is compressed as a whole and the subject is uncompressed
+        // again afterwards (the signatures then sit on a node whose subject is a node)
+        let sign_compressed = case % 6 == 1 && base.is_node() && !base.is_subject_obscured();
+        if sign_compressed {
+            if let Ok(c) = base.compress() {
+                e = c;
+                hist.push("compress whole".into());
+            }
+        }
         let batch = case % 5 == 0;
         if batch {
             // the batch entry points
@@ -320,6 +329,17 @@ pub fn run(ctx: &mut Ctx) {
         }
         if dependency_bug {
             continue;
+        }
+        if sign_compressed && e.is_subject_compressed() {
+            match trap::guard(|| e.uncompress_subject()) {
+                Ok(Ok(u)) => {
+                    e = u;
+                    hist.push("uncompress_subject after signing".into());
+                    ctx.count("signed_while_compressed_then_uncompressed");
+                }
+                Ok(Err(err)) => ctx.violation("sign-compressed/uncompress-err", &format!("{}", err), jhex(&e)),
+                Err(p) => ctx.violation(&format!("sign-compressed/panic/{}", p.signature()), &format!("{:?}", p), jhex(&e)),
+            }
         }
 
         // adversarial 'signed' assertions
